@@ -242,3 +242,31 @@ M("claim_equal_name_yields", ["C04"], "higher-priority CA does not repeat its cl
   ("j1939/controller_application.py", "                    # we are in the middle of the claim-process\n                    self._send_address_claimed(self._device_address_announced)", "                    # we are in the middle of the claim-process\n                    pass"))
 M("claim_aac_from_wrong_bit", ["C04", "C15"], "arbitrary-address-capable parsed from bit 62",
   ("j1939/name.py", "        self.arbitrary_address_capable = (value >> 63) & 1", "        self.arbitrary_address_capable = (value >> 62) & 1"))
+
+M("guard_send_message_removed", ["C13"], "send_message without the state guard",
+  ("j1939/controller_application.py", "    def send_message(self, priority, parameter_group_number, data):\n        if self.state != ControllerApplication.State.NORMAL:", "    def send_message(self, priority, parameter_group_number, data):\n        if False:"))
+M("guard_send_request_any_pgn", ["C13"], "send_request lets any PGN through without an address",
+  ("j1939/controller_application.py", "            if pgn != j1939.ParameterGroupNumber.PGN.ADDRESSCLAIM:\n                raise RuntimeError", "            if False:\n                raise RuntimeError"))
+M("guard_send_pgn_wait_veto_ok", ["C13"], "send_pgn allowed while waiting for veto",
+  ("j1939/controller_application.py", "        if self.state != ControllerApplication.State.NORMAL:\n            raise RuntimeError(\"Could not send message unless address claiming has finished\")\n\n        return self._ecu.send_pgn(", "        if self.state not in (ControllerApplication.State.NORMAL, ControllerApplication.State.WAIT_VETO):\n            raise RuntimeError(\"Could not send message unless address claiming has finished\")\n\n        return self._ecu.send_pgn("))
+M("loss_keeps_old_address_aac", ["C13", "C04"], "AAC loser goes NORMAL again on the address it lost",
+  ("j1939/controller_application.py", "            self._device_address = self._device_address_announced\n            self._device_address_state = ControllerApplication.State.NORMAL\n        elif self._device_address_state == ControllerApplication.State.NORMAL:", "            self._device_address = self._device_address_preferred\n            self._device_address_state = ControllerApplication.State.NORMAL\n        elif self._device_address_state == ControllerApplication.State.NORMAL:"))
+M("request_claim_from_own_address_when_lost", ["C13"], "request for address claim sent from the preferred address when not operational",
+  ("j1939/controller_application.py", "            source_address = j1939.ParameterGroupNumber.Address.NULL\n        else:", "            source_address = self._device_address_preferred\n        else:"))
+M("cannot_claim_state_not_set", ["C13", "C04"], "fixed loser keeps state NORMAL (address None)",
+  ("j1939/controller_application.py", "                    self._device_address_state = ControllerApplication.State.CANNOT_CLAIM\n                    self._device_address = None", "                    self._device_address = None"))
+
+M("request_dispatch_any_state", ["C14"], "request dispatched regardless of the CA's claim state",
+  ("j1939/controller_application.py", "        if (self.state != ControllerApplication.State.NORMAL) or ((self._device_address != dest_address) and (dest_address != j1939.ParameterGroupNumber.Address.GLOBAL)):", "        if ((self._device_address != dest_address) and (dest_address != j1939.ParameterGroupNumber.Address.GLOBAL)):"),
+  ("j1939/j1939_21.py", "            for ca in self._cas:\n                if ca.message_acceptable(dest_address):\n                    ca._process_request(mid, dest_address, data, timestamp)", "            for ca in self._cas:\n                ca._process_request(mid, dest_address, data, timestamp)"))
+M("request_pgn_16bit", ["C14"], "requested PGN parsed from two bytes only",
+  ("j1939/controller_application.py", "        pgn = data[0] | (data[1] << 8) | (data[2] << 16)\n        src_address = mid.source_address\n\n        if (self.state", "        pgn = data[0] | (data[1] << 8)\n        src_address = mid.source_address\n\n        if (self.state"))
+M("request_to_all_cas_of_stack", ["C14", "C05"], "a destination-specific request reaches every CA of the owning stack",
+  ("j1939/controller_application.py", "or ((self._device_address != dest_address) and (dest_address != j1939.ParameterGroupNumber.Address.GLOBAL)):", "or False:"),
+  ("j1939/j1939_21.py", "            for ca in self._cas:\n                if ca.message_acceptable(dest_address):\n                    ca._process_request(mid, dest_address, data, timestamp)", "            for ca in self._cas:\n                ca._process_request(mid, dest_address, data, timestamp)"))
+M("request_claim_dp1_answered", ["C14"], "PGN 0x1EE00 treated as the address-claim PGN",
+  ("j1939/controller_application.py", "        if pgn==j1939.ParameterGroupNumber.PGN.ADDRESSCLAIM:\n            # answer the request with our name...", "        if (pgn & 0xFFFF)==j1939.ParameterGroupNumber.PGN.ADDRESSCLAIM:\n            # answer the request with our name..."))
+M("request_encoding_be", ["C14"], "request data big-endian",
+  ("j1939/controller_application.py", "        data = [(pgn & 0xFF), ((pgn >> 8) & 0xFF), ((pgn >> 16) & 0xFF)]\n        self._ecu.send_pgn(data_page, (j1939.ParameterGroupNumber.PGN.REQUEST", "        data = [((pgn >> 16) & 0xFF), ((pgn >> 8) & 0xFF), (pgn & 0xFF)]\n        self._ecu.send_pgn(data_page, (j1939.ParameterGroupNumber.PGN.REQUEST"))
+M("request_global_only_first_ca", ["C14"], "global request handled by the first CA only",
+  ("j1939/j1939_21.py", "                if ca.message_acceptable(dest_address):\n                    ca._process_request(mid, dest_address, data, timestamp)", "                if ca.message_acceptable(dest_address):\n                    ca._process_request(mid, dest_address, data, timestamp)\n                    break"))
